@@ -149,6 +149,9 @@ pub fn run_c06(run: &Run) {
     let flags = Flags { canonical: true, functions: false, memo: false, queries: false };
     explorations(run, flags);
     scale_sections(run, false);
+    // stores that were filled through a channel: the mirror of every producer program, used as a store afterwards
+    #[cfg(feature = "frontend")]
+    crate::c19::mirror_reuse_family(run);
     // the conditions of ADFs written in unusual ways (labels that read like formulas, literally written conditions)
     for src in [Source::Spelled, Source::Literal3, Source::FamAllWriters(fam_a(2))] {
         let res = run.par_family(
@@ -360,6 +363,68 @@ pub fn deep_case(n: usize, k: u64) -> Vec<(String, String)> {
     out
 }
 
+/// chains with MANY variables in their support (around and beyond 64): operators from {and, or, imp} only (the diagrams
+/// stay linear and their path counts small), every restriction and the connectives of two chains vs. the reference BDD
+pub fn wide_chain_fm(n: usize, mut k: u64) -> Fm {
+    let mut f = Fm::Atom(n - 1);
+    for i in (0..n - 1).rev() {
+        let op = [0usize, 1, 2][(k % 3) as usize];
+        k = k / 3 + (i as u64 % 5) * 7; // keep the operators varying along the whole chain
+        f = Fm::bin(op, Fm::Atom(i), f);
+    }
+    f
+}
+
+pub fn wide_support_case(n: usize, k: u64) -> Vec<(String, String)> {
+    use crate::refbdd::*;
+    let f = wide_chain_fm(n, k);
+    let g = wide_chain_fm(n, k.rotate_left(5) ^ 0x2545f491);
+    let r = guard(|| {
+        let mut found: Vec<(String, String)> = vec![];
+        let mut b = Bdd::new();
+        let hf = build_fm(&mut b, &f);
+        let hg = build_fm(&mut b, &g);
+        let mut rb = RefBdd::new();
+        let rf = rb.compile(&f, &|x| x);
+        let rg = rb.compile(&g, &|x| x);
+        if let Err(e) = same_function(&b.nodes, hf, &rb, rf) {
+            found.push(("wide-support:build".into(), e));
+        }
+        for v in 0..n {
+            for val in [false, true] {
+                let hr = b.restrict(hf, var(v), val);
+                let rr = rb.restrict(rf, v, val);
+                if let Err(e) = same_function(&b.nodes, hr, &rb, rr) {
+                    found.push(("wide-support:restrict".into(), format!("restrict(.., {}, {}) of a chain over {} variables is not the cofactor: {}", v, val, n, e)));
+                }
+                // a second restriction of the result, by a variable further down
+                if v + 7 < n {
+                    let hr2 = b.restrict(hr, var(v + 7), !val);
+                    let rr2 = rb.restrict(rr, v + 7, !val);
+                    if let Err(e) = same_function(&b.nodes, hr2, &rb, rr2) {
+                        found.push(("wide-support:restrict".into(), format!("restrict(restrict(.., {}, {}), {}, {}) of a chain over {} variables is not the cofactor: {}", v, val, v + 7, !val, n, e)));
+                    }
+                }
+            }
+        }
+        for op in 0..4u8 {
+            let hr = apply(&mut b, &Op::Bin(op, hf.value() as u16, hg.value() as u16)).unwrap();
+            let rr = rb.apply(op, rf, rg);
+            if let Err(e) = same_function(&b.nodes, hr, &rb, rr) {
+                found.push(("wide-support:connective".into(), format!("{} of two chains over {} variables: {}", BIN_NAMES[op as usize], n, e)));
+            }
+        }
+        if let Err(e) = check_structure(&b.nodes) {
+            found.push(("wide-support:not-canonical".into(), e));
+        }
+        found
+    });
+    match r {
+        Ok(f) => f,
+        Err(m) => vec![("wide-support:panic".into(), m)],
+    }
+}
+
 /// a store with more than 2^16 memoised results and nodes: pairwise conjunctions over many variables; canonicity of
 /// the whole table, and re-requests of existing formulas must return the handles issued before
 pub fn wide_store_case(pairs: usize) -> Vec<(String, String)> {
@@ -429,6 +494,28 @@ fn scale_sections(run: &Run, c07: bool) {
             }
         }
     }
+    // chains whose support has 63 ... 130 variables
+    {
+        let sizes: Vec<usize> = if quick { vec![63, 64, 65, 66, 70, 130] } else { (60..=72).chain([100, 130, 257, 300]).collect() };
+        let per = if quick { 6u64 } else { 27 };
+        let res = run.par_family(
+            &format!("chains over {:?} variables ({} operator assignments each, and / or / imp): every restriction, restrictions of restrictions and connectives vs. a reference BDD", sizes, per),
+            sizes.len() as u64 * per,
+            || 0u64,
+            |st, k| {
+                let n = sizes[(k / per) as usize];
+                let idx = (k % per) * 3 + run.seed % 3;
+                *st += 4 * n as u64 + 4;
+                for (kind, msg) in wide_support_case(n, idx) {
+                    run.violation(&kind, format!("{} (chain #{} over {} variables)", msg, idx, n), json!({"type": "wide-support", "vars": n, "index": idx}));
+                }
+            },
+            &|k| json!({"type": "wide-support", "vars": sizes[(k / per) as usize], "index": (k % per) * 3 + run.seed % 3}),
+        );
+        for st in res {
+            run.add_counts(0, st, st, st);
+        }
+    }
     // deep diagrams
     let plan: Vec<(usize, u64)> = if quick { vec![(8, 1), (11, 64)] } else { vec![(8, 1), (10, 1), (12, 16)] };
     for (n, stride) in plan {
@@ -485,6 +572,9 @@ pub fn replay(prop: &str, c: &Value) -> Vec<(String, String)> {
             let labels: Vec<String> = c["labels"].as_array().map(|a| a.iter().map(|x| x.as_str().unwrap_or("").to_string()).collect()).unwrap_or_default();
             return adf_handles_case(c["text"].as_str().unwrap_or(""), &tts, &labels);
         }
+        #[cfg(feature = "frontend")]
+        "mirror-reuse" => return crate::c19::replay(c),
+        "wide-support" => return wide_support_case(c["vars"].as_u64().unwrap_or(65) as usize, c["index"].as_u64().unwrap_or(0)),
         "deep" => return deep_case(c["vars"].as_u64().unwrap_or(8) as usize, c["index"].as_u64().unwrap_or(0)),
         "wide" => return wide_store_case(c["pairs"].as_u64().unwrap_or(70000) as usize),
         "bridge-scale" => {
